@@ -1,8 +1,10 @@
 SPECIFICATION GenSpec
 CONSTANTS
   Reqs <- ReqsSame
+  Parts <- P111
+  RegAfter <- RegFirst
   Dups = {}
+  LookupAtomic = TRUE
   FailIdx = {3}
-  RegisterFirst = TRUE
 INVARIANTS NoSpurious MatchOnce NoLoss Emit
 CHECK_DEADLOCK FALSE
